@@ -15,13 +15,14 @@ struct Recipe {
     size_t bodyLen = 0; unsigned tag = 1;
     std::vector<long> chunks;     // stream: sizes; -1 = an integer value written with operator<<, -2 = c-string literal
     std::vector<int> flushAfter;  // stream: flush after chunk i?
+    bool viaClone = false;        // fixed: the handler answers on a clone() of the writer it was handed
     int moveAt = -1;              // stream: the ResponseStream object is moved (to the heap) before chunk moveAt is written (-1: never)
     // filled by the handler
     std::atomic<int> ran{0}; std::atomic<int> fulfilled{0}, rejected{0}; std::atomic<long> promiseValue{-1}; std::atomic<long> reportedSize{-1};
     std::atomic<int> threw{0};
 };
 static std::map<std::string, Recipe*> g_recipes;
-static const int CODES[] = {204, 304, 200, 201, 202, 203, 206, 301, 302, 400, 401, 403, 404, 405, 409, 410, 418, 422, 429, 500, 501, 503, 511, 599};
+static const int CODES[] = {299, 450, 598, 204, 304, 200, 201, 202, 203, 206, 301, 302, 400, 401, 403, 404, 405, 409, 410, 418, 422, 429, 500, 501, 503, 511, 599};
 static void apply_headers(Http::ResponseWriter& response, const Recipe& rc) {
     using namespace Http::Header;
     for (auto& h : rc.headers) {
@@ -46,9 +47,16 @@ struct RecipeHandler : public Http::Handler {
             apply_headers(response, *rc);
             if (rc->kind == 0) {
                 std::string body = tagged_body(rc->tag, rc->bodyLen, false);
+                if (rc->viaClone) {
+                    auto w2 = response.clone();
+                    auto p = w2.send((Http::Code)rc->code, body.data(), body.size());
+                    p.then([rc](ssize_t v) { rc->promiseValue = (long)v; rc->fulfilled++; }, [rc](std::exception_ptr) { rc->rejected++; });
+                    rc->reportedSize = (long)w2.getResponseSize();
+                } else {
                 auto p = response.send((Http::Code)rc->code, body.data(), body.size());
                 p.then([rc](ssize_t v) { rc->promiseValue = (long)v; rc->fulfilled++; }, [rc](std::exception_ptr) { rc->rejected++; });
                 rc->reportedSize = (long)response.getResponseSize();
+                }
             } else {
                 auto first = response.stream((Http::Code)rc->code);
                 std::unique_ptr<Http::ResponseStream> moved;
@@ -86,6 +94,7 @@ static void gen_recipe(Rng& r, Recipe& rc, bool allowStream) {
     int nc = r.range(0, 4); std::set<std::string> cn;
     for (int i = 0; i < nc; i++) { std::string n = mg::tok(r, 1, 6, mg::CKNAME); if (!cn.insert(n).second) continue; rc.cookies.push_back({n, mg::tok(r, 0, 10, mg::CKVAL)}); }
     rc.tag = (unsigned)r.range(1, 200);
+    rc.viaClone = r.chance(1, 3);
     // 204 / 304 carry no body by definition: only the empty fixed body is generated for them, where every reading of the framing agrees
     if (rc.code == 204 || rc.code == 304) rc.kind = 0;
     if (rc.kind == 0 && (rc.code == 204 || rc.code == 304)) { rc.bodyLen = 0; }
@@ -102,7 +111,7 @@ static void gen_recipe(Rng& r, Recipe& rc, bool allowStream) {
     }
 }
 static std::string recipe_text(const Recipe& rc) {
-    std::string s = std::string(rc.kind ? "stream" : "fixed") + " code=" + std::to_string(rc.code) + " headers=" + std::to_string(rc.headers.size()) + " cookies=" + std::to_string(rc.cookies.size());
+    std::string s = std::string(rc.kind ? "stream" : rc.viaClone ? "fixed-via-clone" : "fixed") + " code=" + std::to_string(rc.code) + " headers=" + std::to_string(rc.headers.size()) + " cookies=" + std::to_string(rc.cookies.size());
     if (rc.kind == 0) s += " body=" + std::to_string(rc.bodyLen); else { s += " moveAt=" + std::to_string(rc.moveAt) + " chunks="; for (size_t i = 0; i < rc.chunks.size(); i++) s += std::to_string(rc.chunks[i]) + (rc.flushAfter[i] ? "f," : ","); }
     return s;
 }
@@ -193,7 +202,7 @@ static void run_c05(long cases) {
                 if (L < 64) continue;
                 std::unique_ptr<Http::Endpoint> ep2; int port2;
                 try { port2 = start(ep2, L); } catch (const std::exception&) { count("limit_endpoint_refused_setting"); continue; }
-                Recipe r2; r2.kind = 0; r2.code = rc.code; r2.headers = rc.headers; r2.cookies = rc.cookies; r2.bodyLen = rc.bodyLen; r2.tag = rc.tag;
+                Recipe r2; r2.kind = 0; r2.code = rc.code; r2.headers = rc.headers; r2.cookies = rc.cookies; r2.bodyLen = rc.bodyLen; r2.tag = rc.tag; r2.viaClone = rc.viaClone;
                 std::string id2 = id + "L" + std::to_string(L);
                 { std::lock_guard<std::mutex> g(g_m); g_recipes[id2] = &r2; }
                 // the path is part of nothing on the response side, so the size on the wire is the same T
